@@ -243,3 +243,43 @@ Definition decode_entry (data : list N) : eres entry :=
 Definition entry_asc (data : list N) : eres asc :=
   edo e <- decode_entry data;
   match decode_asc (e_dc e) with Ok a => EOk a | _ => EErr end.
+
+(* ------------------------------------------------------------------ the slice-reader decoders *)
+(* mp4.DecodeBoxSR / DecodeHeaderSR / DecodeAudioSampleEntrySR / DecodeEsdsSR: one FixedSliceReader
+   runs over the whole input; no per-box body slices.  Same modelled path as decode_entry. *)
+Definition decode_box_header_sr (s : sr) : eres (list N * N * sr) :=
+  edo (size, s) <- r_u32 s;
+  edo (name, s) <- r_take 4 s;
+  if size =? 1 then EUnmodelled
+  else if size =? 0 then EErr
+  else if size <? 8 then EErr
+  else EOk (name, size, s).
+
+Definition decode_entry_sr (data : list N) : eres entry :=
+  edo (name, size, s) <- decode_box_header_sr (data, 0);
+  if negb (list_eqb name fourcc_mp4a) then EUnmodelled
+  else if lenN (fst s) + 8 <? size then EErr         (* DecodeBoxSR: size too big *)
+  else
+    edo (_, s) <- r_take 6 s;
+    edo (dri, s) <- r_u16 s;
+    edo (_, s) <- r_take 8 s;
+    edo (cc, s) <- r_u16 s;
+    edo (ss, s) <- r_u16 s;
+    edo (_, s) <- r_take 4 s;
+    edo (rate32, s) <- r_u32 s;
+    let rate := rate32 / 65536 in
+    if size <=? 36 then EUnmodelled                   (* no child: the loop `for pos < lastPos` does not run *)
+    else
+      edo (cname, csize, s) <- decode_box_header_sr s;
+      if negb (list_eqb cname fourcc_esds) then EUnmodelled
+      else if lenN (fst s) + 8 <? csize then EErr
+      else
+        edo (_, s) <- r_u32 s;                        (* version and flags *)
+        edo ((es_ss, dc), s) <- decode_es s;
+        let pos := 36 + (8 + 4 + es_ss) in            (* pos += box.Size() *)
+        if pos <? size then EUnmodelled               (* another DecodeBoxSR *)
+        else EOk (mkEntry dri cc ss rate dc).         (* pos >= lastPos ends the loop, no size check *)
+
+Definition entry_asc_sr (data : list N) : eres asc :=
+  edo e <- decode_entry_sr data;
+  match decode_asc (e_dc e) with Ok a => EOk a | _ => EErr end.
